@@ -1,6 +1,6 @@
 (* C11 - CRC-32 and frame-check-sequence verification are exact.  Statements only. *)
 From Coq Require Import List ZArith.
-From LW Require Import Base.Bytes Model.CRC Spec.CRCSpec Proofs.CRCProofs.
+From LW Require Import Base.Bytes Model.CRC Spec.CRCSpec Proofs.CRCProofs Proofs.CRCBurst.
 Local Open Scope Z_scope.
 
 (* the C loop (whole octet xor-ed in, eight shift/mask steps, constants as translated from the source)
@@ -37,3 +37,28 @@ Print Assumptions c11_verify_iff.
 Theorem c11_short_no : forall (rd : Z -> res byte) len, len < 4 -> frame_verify rd len = Done 0.
 Proof. exact short_no. Qed.
 Print Assumptions c11_short_no.
+
+(* error detection, for frames of every length: a frame that carries its own FCS (valid_frame), hit by an
+   error pattern e of the same length whose bit stream in transmission order is zeros, then a window of
+   at most 32 bits starting with a 1, then zeros (burst32) - anywhere, the FCS octets included - is
+   answered no *)
+Theorem c11_burst_detected : forall f e rd,
+  wfbytes f -> wfbytes e -> length e = length f -> valid_frame f -> burst32 (message_bits e) ->
+  agrees rd (xor_bytes f e) ->
+  frame_verify rd (zlen f) = Done 0.
+Proof. exact burst_detected. Qed.
+Print Assumptions c11_burst_detected.
+
+(* in particular one inverted bit: bit b of octet k, any k inside the frame *)
+Theorem c11_single_bit_detected : forall f k b rd,
+  wfbytes f -> valid_frame f -> (k < length f)%nat -> (b < 8)%nat ->
+  agrees rd (flip_bit f k b) ->
+  frame_verify rd (zlen f) = Done 0.
+Proof. exact single_bit_detected. Qed.
+Print Assumptions c11_single_bit_detected.
+
+(* flip_bit is the xor with the pattern that is zero except for bit b of octet k *)
+Theorem c11_flip_bit_xor : forall f k b, (k < length f)%nat ->
+  flip_bit f k b = xor_bytes f (single_bit_error (length f) k b).
+Proof. exact flip_bit_xor. Qed.
+Print Assumptions c11_flip_bit_xor.
